@@ -186,6 +186,87 @@ fn one<T: Uni + Encode + Decode + DecodeWithMemTracking>(cx: &mut Cx, name: &str
 	}
 }
 
+/// The optional integrations against the core types they stand for (`opt` configurations only):
+/// GenericArray<T, N> vs [T; N] on the same values and byte strings, plain and under the depth
+/// and memory limiters; bit vectors whose storage holds set bits beyond their length.  Each line
+/// carries both results; they must be equal, and the lines equal in every configuration.
+#[cfg(feature = "opt")]
+mod integ {
+	use super::*;
+	use generic_array::{typenum, ArrayLength, GenericArray};
+	use parity_scale_codec::{DecodeLimit, MemTrackingInput};
+
+	fn outcome<T: Decode + Encode>(inp: &[u8], wrapper: &str) -> String {
+		let r = catch_unwind(AssertUnwindSafe(|| {
+			let mut s = inp;
+			let v = match wrapper.split_at(1) {
+				("d", l) => T::decode_with_depth_limit(l.parse().unwrap(), &mut s).ok(),
+				("m", l) => {
+					let mut m = MemTrackingInput::new(&mut s, l.parse().unwrap());
+					T::decode(&mut m).ok()
+				},
+				_ => T::decode(&mut s).ok(),
+			};
+			v.map(|v| (hex(&v.encode()), inp.len() - s.len()))
+		}));
+		match r {
+			Ok(Some((h, c))) => format!("ok/{c}/{h}"),
+			Ok(None) => "err".into(),
+			Err(_) => "PANIC".into(),
+		}
+	}
+	fn pair<T: Uni + Encode + Decode + Clone, const K: usize, N: ArrayLength<T>>(cx: &mut Cx, name: &str) {
+		let mut r = Rng::new(cx.rng.s ^ (K as u64) << 8 ^ name.len() as u64);
+		let mut prev = vec![];
+		for _ in 0..cx.nvals {
+			let v = <[T; K]>::gen(&mut r, 0);
+			let g = GenericArray::<T, N>::from_exact_iter(v.iter().cloned()).unwrap();
+			let (ea, eg) = (v.encode(), g.encode());
+			writeln!(cx.out, "{name}\tinteg\tenc\t-\t{}\t{}", hex(&ea), hex(&eg)).unwrap();
+			cx.n += 1;
+			let mut inputs = vec![ea.clone()];
+			for _ in 0..3 {
+				inputs.push(mutate(&mut r, &ea, &prev).0);
+			}
+			prev = ea;
+			for inp in inputs {
+				for w in ["p", "d0", "d1", "d2", "d3", "m0", "m1", "m4", "m16", "m64", "m18446744073709551615"] {
+					let (a, b) = (outcome::<[T; K]>(&inp, w), outcome::<GenericArray<T, N>>(&inp, w));
+					writeln!(cx.out, "{name}\tinteg\t{}\t{w}\t{a}\t{b}", hex(&inp)).unwrap();
+					cx.n += 1;
+				}
+			}
+		}
+	}
+	macro_rules! dirty {
+		($cx:expr; $($t:ty, $o:ty);*) => {$(
+			for n in [0usize, 1, 3, 7, 8, 9, 15, 17, 31, 33, 63, 65, 100] {
+				// every storage bit set, then cut down: the bits beyond `n` stay set in the store
+				let mut v = BitVec::<$t, $o>::repeat(true, 130);
+				v.truncate(n);
+				let mut clean = BitVec::<$t, $o>::repeat(false, n);
+				clean.fill(true);
+				let name = concat!("BitVec<", stringify!($t), ",", stringify!($o), ">");
+				writeln!($cx.out, "{name}\tinteg\tdirty{n}\t-\t{}\t{}", hex(&clean.encode()), hex(&v.encode())).unwrap();
+				let b = v.clone().into_boxed_bitslice();
+				writeln!($cx.out, "{name}\tinteg\tdirtybox{n}\t-\t{}\t{}", hex(&clean.encode()), hex(&b.encode())).unwrap();
+				$cx.n += 2;
+				$cx.cases.push(format!("(GEnc {} {} {})", <BitVec<$t, $o> as Uni>::desc(), v.val_enc(), blist(&v.encode())), format!("{name}\tenc-dirty"), true);
+			}
+		)*};
+	}
+	pub fn run(cx: &mut Cx) {
+		pair::<u8, 8, typenum::U8>(cx, "[u8;8]~GenericArray");
+		pair::<u32, 3, typenum::U3>(cx, "[u32;3]~GenericArray");
+		pair::<Vec<u8>, 2, typenum::U2>(cx, "[Vec<u8>;2]~GenericArray");
+		pair::<Option<Box<u16>>, 2, typenum::U2>(cx, "[Option<Box<u16>>;2]~GenericArray");
+		pair::<(u8, String), 2, typenum::U2>(cx, "[(u8,String);2]~GenericArray");
+		pair::<Vec<Vec<u16>>, 1, typenum::U1>(cx, "[Vec<Vec<u16>>;1]~GenericArray");
+		pair::<(), 4, typenum::U4>(cx, "[();4]~GenericArray");
+		dirty!(cx; u8, Lsb0; u8, Msb0; u16, Lsb0; u16, Msb0; u32, Lsb0; u32, Msb0; u64, Lsb0; u64, Msb0);
+	}
+}
+
 /// same mutation operators as the main harness (kept local: gen.rs needs std-only API)
 fn mutate(r: &mut Rng, enc: &[u8], other: &[u8]) -> (Vec<u8>, &'static str) {
 	let mut s = enc.to_vec();
@@ -261,6 +342,8 @@ fn main() {
 	{
 		let cx = &mut cx;
 		for_all_types!(one, cx);
+		#[cfg(feature = "opt")]
+		integ::run(cx);
 	}
 	std::fs::write(a.out.join("digest.tsv"), &cx.out).unwrap();
 	if args.iter().any(|x| x == "--coq") {
